@@ -409,7 +409,8 @@ pub fn cmd_sink_child(args: &[String]) -> i32 {
         let mut s = NoCopyFileSink::new(rs, &path, Mode::Create).unwrap();
         let mut acked = 0usize;
         for i in 0..n {
-            ws.push(format!("p{i:06}"), &[]);
+            // every 7th packet is empty: its record is just the separator
+            ws.push(if i % 7 == 3 { String::new() } else { format!("p{i:06}") }, &[]);
             if i % 3 == 2 || i == n - 1 {
                 while matches!(s.work(), Ok(BlockRet::Again)) {
                     acked += 1;
@@ -510,15 +511,17 @@ pub fn cmd_sink_crash(args: &[String]) -> i32 {
         }
         let file = std::fs::read(&path).unwrap_or_default();
         // expected serialised stream
-        let (unit, prefix_ok, whole) = if packet {
-            let exp: Vec<u8> = (0..n).flat_map(|i| format!("p{i:06}\n").into_bytes()).collect();
-            (8usize, file.len() <= exp.len() && file[..] == exp[..file.len()], exp.len())
+        let rec = |i: usize| if i % 7 == 3 { "\n".to_string() } else { format!("p{i:06}\n") };
+        let (unit, prefix_ok, whole, acked_bytes, fed_bytes) = if packet {
+            let exp: Vec<u8> = (0..n).flat_map(|i| rec(i).into_bytes()).collect();
+            let ab: usize = (0..acked.min(n)).map(|i| rec(i).len()).sum();
+            (8usize, file.len() <= exp.len() && file[..] == exp[..file.len()], exp.len(), ab, 0usize)
         } else {
             let exp: Vec<u8> = (0..n as u32).flat_map(|i| i.to_le_bytes()).collect();
-            (4usize, file.len() <= exp.len() && file[..] == exp[..file.len()], exp.len())
+            (4usize, file.len() <= exp.len() && file[..] == exp[..file.len()], exp.len(), acked * 4, fed * 4)
         };
         writeln!(o, "{}", json!({"ev": "crash", "packet": packet, "point": c["point"], "k": c["k"], "kill_after_us": c["kill_after_us"].as_u64().unwrap_or(0),
-            "acked": acked, "fed": fed, "unit": unit, "file_len": file.len(), "prefix_ok": prefix_ok, "total": whole,
+            "acked": acked, "fed": fed, "unit": unit, "acked_bytes": acked_bytes, "fed_bytes": fed_bytes, "file_len": file.len(), "prefix_ok": prefix_ok, "total": whole,
             "finished": finished, "killed": !status.success()})).unwrap();
         nev += 1;
     }
